@@ -617,26 +617,40 @@ def run_world(case, stats, record=None):
         # behind in module- or object-level caches) can influence it.  The
         # child evaluates twice to tell address-dependent outcomes apart.
         changed_alone = False
+        init_sites = {}
         for t, ops in enumerate(case['tasks']):
             row = []
             for j, (si, di) in enumerate(ops):
                 def alone(si=si, di=di):
                     c = sched.LineCounter(prefix, wl)
+                    cw = sched.LineCounter(prefix, wl)
                     if need_counts:
                         with c:
                             o = outcome_of(lambda: evaluate(si, di))
                     else:
                         o = outcome_of(lambda: evaluate(si, di))
                     ch = world.snapshot() != snap0
-                    o2 = outcome_of(lambda: evaluate(si, di))
-                    return o, o2, c.lines, c.wpoints, c.sites, ch
-                o, o2, nl, nw, sites, ch = core.fork_call(alone)
+                    if need_counts and case.get('focused'):
+                        with cw:
+                            o2 = outcome_of(lambda: evaluate(si, di))
+                        # executed by the first evaluation of this process
+                        # and no more (or less often) by the second: code
+                        # that fills something in on first use
+                        init = {k_: v_ for k_, v_ in c.sites.items()
+                                if cw.sites.get(k_, 0) < v_}
+                    else:
+                        o2 = outcome_of(lambda: evaluate(si, di))
+                        init = {}
+                    return o, o2, c.lines, c.wpoints, c.sites, ch, init
+                o, o2, nl, nw, sites, ch, init = core.fork_call(alone)
                 if o != o2:
                     unstable.add((t, j))
                 counter.lines += nl
                 counter.wpoints += nw
                 for k_, v_ in sites.items():
                     counter.sites[k_] = counter.sites.get(k_, 0) + v_
+                for k_, v_ in init.items():
+                    init_sites[k_] = max(init_sites.get(k_, 0), v_)
                 changed_alone = changed_alone or ch
                 row.append(o)
             base.append(row)
@@ -817,11 +831,24 @@ def run_world(case, stats, record=None):
             r2.shuffle(rare)
             rare.sort(key=lambda x: (_site_picks.get(x, 0),
                                      0 if x in sched.GLOBAL_SITES else 1))
-            for site in rare[:spec.get('sweep', SWEEP)]:
+            picks = [(x, counter.sites[x])
+                     for x in rare[:spec.get('sweep', SWEEP)]]
+            # first-use sites that are not rare (a table built once per
+            # function definition, say): a few of them as well, at a random
+            # one of the occurrences of the first evaluation
+            often = sorted(x for x in init_sites
+                           if counter.sites.get(x, 0) > 4 * nthreads)
+            r2.shuffle(often)
+            often.sort(key=lambda x: _site_picks.get(('init',) + x, 0))
+            for x in often[:max(2, spec.get('sweep', SWEEP) // 3)]:
+                _site_picks[('init',) + x] = \
+                    _site_picks.get(('init',) + x, 0) + 1
+                picks.append((x, init_sites[x]))
+            for site, occ in picks:
                 _site_picks[site] = _site_picks.get(site, 0) + 1
                 spec2 = {'policy': 'writes', 'seed': r2.randrange(1 << 30),
                          'switch_at_w': [[site[0], site[1], r2.randrange(
-                             1, counter.sites[site] + 1)]]}
+                             1, occ + 1)]]}
                 c2 = core.fork_call(lambda: concurrent(spec2, None),
                                     timeout=600)
                 stats.inc('sweep_phases')
